@@ -156,6 +156,8 @@ func (q *Queue) Add(elem *queue.Elem) (err error) {
 				if dropIndex < q.current {
 					q.current--
 				}
+				// the message is gone: a later Remove of its packet id must not find it in the cache
+				delete(q.readCache, dropElem.ID())
 			}
 			if dropBytes == nil {
 				q.notifier.NotifyDropped(elem, dropErr)
